@@ -46,6 +46,7 @@ Fails(e) ==
     [] e.op = "ec_trace"      -> JEcTrace(e)
     [] e.op = "hop_trace"     -> JHopTrace(e)
     [] e.op = "iso_trace"     -> JIsoTrace(e)
+    [] e.op = "rip_trace"     -> JRipTrace(e)
     [] e.op = "unit_trace"    -> JUnitTrace(e)
     [] e.op = "path_trace"    -> JPathTrace(e)
     [] e.op = "sched_replay"  -> JSchedReplay(e)
